@@ -98,7 +98,7 @@ func (r *Runner) Outstanding() int {
 	return r.outstanding
 }
 
-func (r *Runner) issue(a ClientAction) {
+func (r *Runner) Issue(a ClientAction) {
 	w := r.W
 	eng := w.Engine()
 	switch a.Kind {
@@ -216,7 +216,7 @@ func RunCaseOpts(c *Case, pick func(n int) int, o RunOpts) *Result {
 	step := 0
 	for {
 		for len(client) > 0 && client[0].AtStep <= step {
-			r.issue(client[0])
+			r.Issue(client[0])
 			client = client[1:]
 		}
 		settled := w.Sched.WaitSettled(w.Log, Settle, idle)
@@ -242,15 +242,15 @@ func RunCaseOpts(c *Case, pick func(n int) int, o RunOpts) *Result {
 				if out == 0 && (st == pipeline.StatusRunning || st == pipeline.StatusRecovering) && finalStops < 6 {
 					finalStops++
 					if c.HasHold() {
-						r.issue(ClientAction{Kind: "forcestop"})
+						r.Issue(ClientAction{Kind: "forcestop"})
 					} else {
-						r.issue(ClientAction{Kind: "stopwait"})
+						r.Issue(ClientAction{Kind: "stopwait"})
 					}
 					silentSince = time.Now()
 				}
 				continue
 			}
-			r.issue(client[0])
+			r.Issue(client[0])
 			client = client[1:]
 			continue
 		}
@@ -265,9 +265,9 @@ func RunCaseOpts(c *Case, pick func(n int) int, o RunOpts) *Result {
 			finalStops++
 			if c.HasHold() {
 				// a plugin that never answers can only be ended by force
-				r.issue(ClientAction{Kind: "forcestop"})
+				r.Issue(ClientAction{Kind: "forcestop"})
 			} else {
-				r.issue(ClientAction{Kind: "stopwait"})
+				r.Issue(ClientAction{Kind: "stopwait"})
 			}
 			silentSince = time.Now()
 			continue
